@@ -55,7 +55,7 @@ def one(d, props):
         det = {}
         for p in props:
             cenv = dict(os.environ, VERIF_REPO=wt, VERIF_EVIDENCE_DIR=os.path.join(tmp, "ev"))
-            rcc, outc = run([os.path.join(VERIF, "check"), p, "--no-cache"], cwd=VERIF, env=cenv, timeout=1500)
+            rcc, outc = run([os.path.join(VERIF, "check"), p], cwd=VERIF, env=cenv, timeout=1500)
             if rcc != 0:
                 roles = [l.strip()[:220] for l in outc.splitlines() if l.startswith(("  rule=", "ANALYSIS-ERROR"))]
                 det[p] = {"exit": rcc, "lines": roles[:6]}
